@@ -158,6 +158,9 @@ class MTypeBool(MTypeBase):
 
     @classmethod
     def new_node(cls, value: T.Optional[str] = None) -> BaseNode:
+        if isinstance(value, str):
+            # On the command line the value is spelled out
+            value = value.lower() == 'true'
         return BooleanNode(Token('', '', 0, 0, 0, None, bool(value)))
 
     @classmethod
